@@ -66,3 +66,15 @@ def smaller_inlined_wrong(x: int, y: int) -> int:
     if _less_wrong(x, y):
         return x
     return y
+
+
+def pick_name(req):
+    if req == "python":
+        return "python"
+    return "rust"
+
+
+def pick_name_wrong(req):
+    if req == "pyton":
+        return "python"
+    return "rust"
